@@ -223,6 +223,12 @@ type Native struct {
 }
 
 // Hist is the state of one history run.
+type obsKey struct {
+	id  int
+	op  string
+	arg string
+}
+
 type Hist struct {
 	d               drawer
 	prop            string
@@ -236,9 +242,13 @@ type Hist struct {
 	force           *Node // picks go to this container (sandwich)
 	forceNeedle     *MVal
 	hintIndex       int
-	recentTrees     []any        // Go trees passed as arguments earlier in this history
-	prevDirty       map[int]bool // what the latest mutating operation was allowed to change
-	lastPath        []seg        // path of the latest GetTF
+	recentTrees     []any          // Go trees passed as arguments earlier in this history
+	prevDirty       map[int]bool   // what the latest mutating operation was allowed to change
+	lastTouch       map[int]int    // step of the latest operation allowed to change a container
+	lastPass        map[obsKey]int // step at which an observation of a container was last found right
+	obsArg          string         // argument digest of the observation in progress (the needle of a search)
+	twinOK          bool           // a fresh container with the same content answered the failing observation correctly
+	lastPath        []seg          // path of the latest GetTF
 	repeatPath      []seg
 	natives         []*Native
 	byPtr           map[uintptr]*Node
@@ -274,7 +284,11 @@ func (h *Hist) fail(oracle, where string, owners []string, msg string) {
 		return
 	}
 	h.dead = true
-	if sub := h.last; sub != nil && len(h.dirty) == 0 && !h.prevDirty[sub.ID] && (oracle == "result" || oracle == "unexpected-panic" || oracle == "panic-missing") {
+	if sub := h.last; sub != nil && len(h.dirty) == 0 && !h.prevDirty[sub.ID] && (oracle == "result" || oracle == "unexpected-panic" || oracle == "panic-missing") &&
+		(h.lastPass[obsKey{sub.ID, h.curOp, h.obsArg}] > h.lastTouch[sub.ID] || h.twinOK) {
+		// (only when the same observation of the same container was right at an earlier step and the container itself has not
+		// been modified since, or when a brand-new container with the same content gets the right answer: otherwise the observer
+		// may simply be wrong about this content, which is not C08's or C09's business)
 		// an observer is wrong about a container that the latest mutation did not touch: when what was touched is a clone, a
 		// derived result or a native export of it (or the other way round), the independence clause of C08 / C09 / C13 is what
 		// broke — the observer merely shows it (e.g. a summary or a listing shared between the two and updated through one)
@@ -795,6 +809,9 @@ func (h *Hist) heapCheck() {
 			h.fail("frame", rel, owners, fmt.Sprintf("%s changed a container it must not touch: %s (relation %s)", h.curOp, mm.msg, rel))
 		}
 		return
+	}
+	if h.last != nil && len(h.dirty) == 0 && !h.dead {
+		h.lastPass[obsKey{h.last.ID, h.curOp, h.obsArg}] = h.step
 	}
 	for _, nv := range h.natives {
 		h.evals++
